@@ -264,7 +264,7 @@ func c16Prop(rec *ev.Recorder, tb testing.TB) func(t *rapid.T) {
 			c.Stmts = append(c.Stmts, s)
 		}
 		if rapid.IntRange(0, 7).Draw(t, "exit") == 0 {
-			c.Stmts = append(c.Stmts, fmt.Sprintf("exit(%d)", rapid.SampledFrom([]int{0, 1, 3, 255, 256, 77}).Draw(t, "code")))
+			c.Stmts = append(c.Stmts, "exit("+rapid.SampledFrom([]string{"0", "1", "3", "255", "256", "77", "\"done\"", "1.0", "true", "[1]", "0 - 1"}).Draw(t, "code")+")")
 		}
 		for range c.Stmts {
 			c.Seps = append(c.Seps, genSep(t))
